@@ -61,9 +61,22 @@ Classified(st, d) ==
     [] st.cls = "unknown_path" -> ~st.ran /\ st.errs = <<>> /\ d.status = 404
     [] st.cls = "wrong_method" -> ~st.ran /\ st.errs = <<>> /\ (d.status = 405 \/ (st.opt /\ d.status = 204))
     [] st.cls = "no_creds" -> ~st.ran /\ st.errs = <<"sec">> /\ d.status = 401
-    [] st.cls = "param" -> ~st.ran /\ st.errs = <<"params">> /\ d.status = 400
+    [] st.cls \in {"param", "malformed_optional_pair", "content_param_trailing"} -> ~st.ran /\ st.errs = <<"params">> /\ d.status = 400
     [] st.cls = "wrong_ct" -> ~st.ran /\ st.errs = <<"body">> /\ d.status \in {415, 400}
     [] st.cls = "body" -> ~st.ran /\ st.errs = <<"body">> /\ d.status \in {400, 415}
     [] st.cls = "handler_fail" -> st.ran /\ st.errs = <<"handler">> /\ d.status >= 400 /\ d.status < 600
     [] OTHER -> TRUE                                       \* unclassified: generic obligations only
+
+(* Named deviations (implementation layer): what the generated server does instead.   *)
+(*  Dev_MalformedQueryPairDropped: parameters are read from r.URL.Query(), which drops *)
+(*    a pair with a malformed escape (or a ';') without an error: for an optional      *)
+(*    parameter the request then runs with the parameter absent                        *)
+(*  Dev_ContentParamTrailingData: a parameter with `content: application/json` is      *)
+(*    decoded without checking that the text is exhausted                              *)
+KnownFor(st, d) ==
+  IF st.ran /\ (\A i \in 1..Len(st.errs) : st.errs[i] \in {"handler", "notimpl", "encode"}) /\ d.status \notin {400, 401, 404, 405, 415}
+  THEN (CASE st.cls = "malformed_optional_pair" -> "Dev_MalformedQueryPairDropped"
+          [] st.cls = "content_param_trailing" -> "Dev_ContentParamTrailingData"
+          [] OTHER -> "")
+  ELSE ""
 =============================================================================
